@@ -3,6 +3,7 @@
 import random
 
 from mc import net as N
+from mc import explore
 from mc.explore import Result
 
 from onl.netdev import Wire, Cable
@@ -36,8 +37,10 @@ def plan(tier, seed):
     cfgs.append(dict(kind="wire", loss=None, N=n - 1, gaps=["S", 1, 2], order=0, behind=1))
     for loss in (None, 0.5):
         cfgs.append(dict(kind="cable", loss=loss, N=n - 1 if loss is None else n - 2, gaps=["S", 1, 2], order=0))
+    # every configuration once more with long fixed workloads (state that only breaks after hundreds of packets)
+    nlong = explore.add_long(cfgs, 300 if quick else 1000)
     return {"cfgs": cfgs, "budget": None,
-            "bound": "Wire: N<=%d (lossless) / %d (loss 0.5), delays {0,1,2,3}^N, loss rates {None,0,0.5,1}; Cable: N<=%d / %d over both directions" % (n, n - 1, n - 1, n - 2)}
+            "bound": ("%d long fixed workloads (periodic arrival patterns); " % nlong) + ("Wire: N<=%d (lossless) / %d (loss 0.5), delays {0,1,2,3}^N, loss rates {None,0,0.5,1}; Cable: N<=%d / %d over both directions" % (n, n - 1, n - 1, n - 2))}
 
 
 def execute(ch, cfg):
